@@ -219,6 +219,10 @@ type Result struct {
 func (c *Ctx) Finish() error {
 	c.mu.Lock()
 	defer c.mu.Unlock()
+	if slow, expired := WaitStats(); slow+expired > 0 {
+		c.counters["waits_extended_beyond_their_bound_then_satisfied"] += slow
+		c.counters["waits_expired_after_extension"] += expired
+	}
 	r := Result{Prop: c.Prop, Shard: c.Shard, Evaluations: c.evals, DistinctN: c.distinctN,
 		Samples: c.samples, Inconclusive: c.inconclusive, Counters: c.counters, Notes: c.notes,
 		WallS: time.Since(c.start).Seconds(), Done: true, Sets: map[string][]string{}}
